@@ -10,6 +10,12 @@ from .exceptions import DecodeError
 from .gn_address import GNAddress
 
 
+def _to_signed_32(value: int) -> int:
+    """Interpret a 32-bit field as a two's complement signed integer."""
+    value &= 0xFFFFFFFF
+    return value - (1 << 32) if value & 0x80000000 else value
+
+
 @dataclass(frozen=True)
 class TST:
     """
@@ -476,8 +482,8 @@ class LongPositionVector:
         return (
             (self.gn_addr.encode_to_int() << 32 * 4)
             | (self.tst.encode() << 32 * 3)
-            | (self.latitude << 32 * 2)
-            | (self.longitude << 32)
+            | ((self.latitude & 0xFFFFFFFF) << 32 * 2)
+            | ((self.longitude & 0xFFFFFFFF) << 32)
             | (self.pai << 31)
             | (self.s << 16)
             | self.h
@@ -495,8 +501,8 @@ class LongPositionVector:
         return (
             (self.gn_addr.encode_to_int() << 32 * 4)
             | (self.tst.encode() << 32 * 3)
-            | (self.latitude << 32 * 2)
-            | (self.longitude << 32)
+            | ((self.latitude & 0xFFFFFFFF) << 32 * 2)
+            | ((self.longitude & 0xFFFFFFFF) << 32)
             | (int(self.pai) << 31)
             | (self.s << 16)
             | self.h
@@ -517,8 +523,8 @@ class LongPositionVector:
         data_as_int = int.from_bytes(data[0:24], byteorder="big")
         gn_addr = GNAddress.decode((data_as_int >> 32 * 4).to_bytes(8, byteorder="big"))
         tst = TST.decode(data_as_int >> 32 * 3)
-        latitude = (data_as_int >> 32 * 2) & 0xFFFFFFFF
-        longitude = (data_as_int >> 32) & 0xFFFFFFFF
+        latitude = _to_signed_32(data_as_int >> 32 * 2)
+        longitude = _to_signed_32(data_as_int >> 32)
         pai = bool((data_as_int >> 31) & 0x1)
         s = (data_as_int >> 16) & 0x7FFF
         h = data_as_int & 0xFFFF
@@ -714,8 +720,8 @@ class ShortPositionVector:
         return (
             (self.gn_addr.encode_to_int() << 32 * 3)
             | (self.tst.encode() << 32 * 2)
-            | (self.latitude << 32 * 1)
-            | self.longitude
+            | ((self.latitude & 0xFFFFFFFF) << 32 * 1)
+            | (self.longitude & 0xFFFFFFFF)
         ).to_bytes(20, byteorder="big")
 
     def encode_to_int(self) -> int:
@@ -730,8 +736,8 @@ class ShortPositionVector:
         return (
             (self.gn_addr.encode_to_int() << 32 * 3)
             | (self.tst.encode() << 32 * 2)
-            | (self.latitude << 32 * 1)
-            | self.longitude
+            | ((self.latitude & 0xFFFFFFFF) << 32 * 1)
+            | (self.longitude & 0xFFFFFFFF)
         )
 
     @classmethod
@@ -747,8 +753,8 @@ class ShortPositionVector:
         data_int = int.from_bytes(data, byteorder="big")
         gn_addr = GNAddress.decode((data_int >> 32 * 3).to_bytes(8, byteorder="big"))
         tst = TST.decode(data_int >> 32 * 2)
-        latitude = (data_int >> 32 * 1) & 0xFFFFFFFF
-        longitude = data_int & 0xFFFFFFFF
+        latitude = _to_signed_32(data_int >> 32 * 1)
+        longitude = _to_signed_32(data_int)
         return cls(gn_addr=gn_addr, tst=tst, latitude=latitude, longitude=longitude)
 
     def __eq__(self, __o: object) -> bool:
